@@ -3,12 +3,15 @@ from . import treechecks
 
 
 def run(ctx):
-    return treechecks.run(ctx, "C08", ["MlsVerif.Props.C08"], "C08",
+    return treechecks.run(ctx, "C08", ["MlsVerif.Props.C08", "MlsVerif.Props.C08Hash"], "C08",
                           "an exported tree + GroupInfo failed an outside observer's full validation, the context tree hash differs from an independent from-scratch recomputation, "
                           "or a tree ends in a blank",
                           ["proved on the model: shape, no trailing blank, leftmost-blank placement, unmerged-list and uniqueness invariants for every reachable tree (reachable_trees_wf); "
-                           "NOT proved: validity of parent-hash chains for all histories (the TreeSync theorem) and coherence of the incremental tree-hash cache — both are covered by the oracle only: "
-                           "every exported tree is validated by ExternalClient::observe_group and by every joiner, and the tree hash is recomputed by plain recursion in the harness"])
+                           "proved (Props.C08Hash): the incremental tree-hash cache (tree_hash.rs: resize, leaf loop, FIFO parent queue, right-to-left scan for missing entries) equals the from-scratch "
+                           "RFC 9420 tree hash after every operation of every history, incl. shrink followed by re-growth (reachable_cache_coherent; machine-checked negative witness for a cache that "
+                           "only grows); tie: `thashspec` rows compare the partition of (previous ++ current) cache entries by equal bytes with the partition by equal hash terms of the model; "
+                           "NOT proved: validity of parent-hash chains for all histories (the TreeSync theorem) — covered by the oracle only: every exported tree is validated by "
+                           "ExternalClient::observe_group and by every joiner"])
 
 
 def replay(ctx, path):
